@@ -5,6 +5,7 @@ import (
 	"go/ast"
 	"go/token"
 	"go/types"
+	"golang.org/x/tools/go/packages"
 	"strings"
 )
 
@@ -421,4 +422,60 @@ func (c *Ctx) fieldRoles(a *genAnchors) *fieldRoles {
 		}
 	}
 	return r
+}
+
+// ---------------------------------------------------------------------------
+// returnedFunc resolves the function a constructor returns: a function literal
+// inside the constructor, or a method value of a composite literal
+// (return T{a: x, b: y}.method), in which case the method declaration is the
+// function and bind maps the fields of T to the constructor's expressions.
+
+type returnedFunc struct {
+	fn   ast.Node // *ast.FuncLit or *ast.FuncDecl
+	body *ast.BlockStmt
+	bind map[string]ast.Expr // field name -> expression in the constructor (method value form only)
+	recv types.Object        // receiver of the method (method value form only)
+}
+
+func (c *Ctx) returnedFuncs(pkg *packages.Package, fd *ast.FuncDecl) []returnedFunc {
+	info := pkg.TypesInfo
+	var res []returnedFunc
+	inspectNoLit(fd.Body, func(x ast.Node) bool {
+		r, ok := x.(*ast.ReturnStmt)
+		if !ok || len(r.Results) != 1 {
+			return true
+		}
+		switch t := ast.Unparen(r.Results[0]).(type) {
+		case *ast.FuncLit:
+			res = append(res, returnedFunc{fn: t, body: t.Body})
+		case *ast.SelectorExpr:
+			sel, ok := info.Selections[t]
+			if !ok || sel.Kind() != types.MethodVal {
+				return true
+			}
+			cl, ok := ast.Unparen(t.X).(*ast.CompositeLit)
+			if !ok {
+				return true
+			}
+			m, _ := sel.Obj().(*types.Func)
+			if m == nil {
+				return true
+			}
+			md := findFuncDecl(pkg, m)
+			if md == nil || md.Body == nil || md.Recv == nil || len(md.Recv.List[0].Names) != 1 {
+				return true
+			}
+			bind := map[string]ast.Expr{}
+			for _, el := range cl.Elts {
+				if kv, ok := el.(*ast.KeyValueExpr); ok {
+					if k, ok := kv.Key.(*ast.Ident); ok {
+						bind[k.Name] = kv.Value
+					}
+				}
+			}
+			res = append(res, returnedFunc{fn: md, body: md.Body, bind: bind, recv: info.Defs[md.Recv.List[0].Names[0]]})
+		}
+		return true
+	})
+	return res
 }
